@@ -1,6 +1,9 @@
 """Decoder case helpers: run decdrv on a case dict (see harness/decdrv.c for the keys), read its outputs."""
 import json
 import os
+import signal
+import subprocess
+import time
 
 from . import build, core, sanlog
 
@@ -34,7 +37,68 @@ def case_timeout(case, flavour, ivf=None):
         pass
     mult = {"plain": 1, "avx512": 1, "asan": 8, "tsan": 25, "fuzz": 8}.get(flavour, 1)
     sessions = max(1, int(case.get("sessions", 1)))
-    return max(120.0, 60.0 * mult * sessions * (1 + sz / 2e6))
+    # a plain decode of these streams takes well under a second: 60 s is > 100x
+    return max(60.0 if mult == 1 else 120.0, 60.0 * mult * sessions * (1 + sz / 2e6))
+
+
+def _thread_snapshot(pid):
+    """[(tid, state, wchan, cpu_ticks)] of a live process (Linux /proc)."""
+    out = []
+    try:
+        tids = sorted(os.listdir("/proc/%d/task" % pid), key=int)
+    except OSError:
+        return out
+    for tid in tids:
+        try:
+            st = open("/proc/%d/task/%s/stat" % (pid, tid)).read()
+            f = st[st.rindex(")") + 2:].split()
+            try:
+                wchan = open("/proc/%d/task/%s/wchan" % (pid, tid)).read().strip()
+            except OSError:
+                wchan = "?"
+            out.append((int(tid), f[0], wchan, int(f[11]) + int(f[12])))
+        except (OSError, ValueError, IndexError):
+            pass
+    return out
+
+
+def run_watched(cmd, timeout, env=None):
+    """Like core.run, but when the watchdog fires the threads of the process are sampled twice (1.5 s apart) before
+    the process group is killed: RunResult.hang = {"threads": n, "cpu_ticks_delta": d, "states": [...]} tells a
+    deadlock (nobody runs, nobody can be woken) from a slow run."""
+    e = dict(os.environ)
+    if env:
+        e.update(env)
+    t0 = time.time()
+    p = subprocess.Popen(cmd, stdout=subprocess.PIPE, stderr=subprocess.PIPE, env=e, stdin=subprocess.DEVNULL,
+                         start_new_session=True)
+    try:
+        out, err = p.communicate(timeout=timeout)
+        r = core.RunResult(p.returncode, out.decode("utf-8", "replace"), err.decode("utf-8", "replace"), False,
+                           time.time() - t0)
+        r.hang = None
+        return r
+    except subprocess.TimeoutExpired:
+        s1 = _thread_snapshot(p.pid)
+        time.sleep(1.5)
+        s2 = _thread_snapshot(p.pid)
+        c1 = {t: c for t, _, _, c in s1}
+        delta = sum(c - c1.get(t, c) for t, _, _, c in s2)
+        hang = {"threads": len(s2), "cpu_ticks_delta": delta, "states": ["%s:%s" % (st, w) for _, st, w, _ in s2]}
+        out, err = b"", b""
+        for sig, wait in ((signal.SIGTERM, 3), (signal.SIGKILL, 10)):
+            try:
+                os.killpg(p.pid, sig)
+            except OSError:
+                pass
+            try:
+                out, err = p.communicate(timeout=wait)
+                break
+            except Exception:
+                continue
+        r = core.RunResult(-9, out.decode("utf-8", "replace"), err.decode("utf-8", "replace"), True, time.time() - t0)
+        r.hang = hang
+        return r
 
 
 def make_case(ivf, threads=1, is_16bit_pipeline=0, **over):
@@ -47,7 +111,7 @@ def make_case(ivf, threads=1, is_16bit_pipeline=0, **over):
 def run_dec_case(flavour, case, prefix, env=None, timeout=None, sched=None, trace=False, detect_leaks=False,
                  no_hb=False, read_frames=True):
     """Run one decdrv case.  Returns DecResult with fields:
-       rc, timed_out, crashed, res (dict or None), frames ([(key,w,h,bd,bytes)] when read_frames), san [(key, excerpt)],
+       rc, timed_out, hang (thread snapshot when the watchdog fired), crashed, res (dict or None), frames ([(key,w,h,bd,bytes)] when read_frames), san [(key, excerpt)],
        stderr, wall, log_tail (last boundary-log lines), prefix, case"""
     exe = decdrv(flavour)
     case = dict(case)
@@ -70,8 +134,9 @@ def run_dec_case(flavour, case, prefix, env=None, timeout=None, sched=None, trac
     if env:
         e.update(env)
     to = timeout or case_timeout(case, flavour)
-    r = core.run([exe, cpath], timeout=to, env=e)
+    r = run_watched([exe, cpath], timeout=to, env=e)
     res = DecResult()
+    res.hang = r.hang
     res.case = case
     res.flavour = flavour
     res.prefix = prefix
